@@ -16,12 +16,9 @@ import random
 def run(ctx):
     q = ctx.quick
     b = ctx.build("vd-merkle")
-    n = 17 if q else 72
-    rep = load_replay(ctx)
-    if rep:
-        n = max(2, min(n, rep.get("n", n) + 2)) if rep.get("grid") else n
-    rows, _ = table(ctx, "Merkle_c06_quick.cfg" if q else "Merkle_c06_thorough.cfg",
-                    files=None if not rep else {"Merkle_c06_quick.cfg": cfg_text("c06", n)})
+    n = 17 if q else 100
+    load_replay(ctx)
+    rows, _ = table(ctx, "Merkle_c06_quick.cfg" if q else "Merkle_c06_thorough.cfg")
     if len(rows) < n * (n + 1) // 2:
         ctx.fail("too few rows from the c06 table: %d" % len(rows))
     out = ctx.driver(b, ["c06", str(n), ctx.tier], input_obj=rows)
